@@ -691,6 +691,9 @@ W1_CTOR_CASES = (
     + [{"capacity": c, "data_len": n} for c, n in ((-1, 4), (1 << 62, 4), (0, 0), (3, 8))]
     + [{}]
 )
+# risky specs a second time with "poke": when the constructor accepts an unusable argument the first
+# case records that, the second shows what the object then does to memory (it may kill the process)
+W1_CTOR_CASES = W1_CTOR_CASES + [dict(c, poke=1) for c in W1_CTOR_CASES if c.get("capacity", 0) < 0 or c.get("capacity", 0) >= (1 << 40)]
 
 
 def gen_w1_ctor(batch, res, sb, watch, use_fork):
@@ -734,7 +737,7 @@ def gen_w1_ctor(batch, res, sb, watch, use_fork):
             chk.fail("buffer:ctor:unusable-argument-accepted",
                      "Buffer(%s) returned an object with capacity=%r tell()=%r instead of raising" % (_specdesc(spec), capv, tellv))
             # the decisive observation is what the object then does to memory: one push, one pull
-            for op, arg in (("push_uint8", 0x41), ("seek", 0), ("pull_uint8", None)):
+            for op, arg in (("push_uint8", 0x41), ("seek", 0), ("pull_uint8", None)) if spec.get("poke") else ():
                 local.count("w1_calls_checked")
                 try:
                     buf_call(buf, op, arg)
@@ -1126,7 +1129,7 @@ def gen_w2_remove(batch, res, sb, watch, use_fork):
                                 % (pl, off, len(out[0]), bad), case)
                 ctx.update(_suite_objs(suite))
                 oc = "accepted-" + bad
-            elif off >= 1 and tuple(out) != tuple(ctx["ref_hp"].remove(packet, off)):
+            elif off >= 1 and (out[0], out[1] & 0xFFFFFFFF) != tuple(ctx["ref_hp"].remove(packet, off)):
                 local.violation("kat:HeaderProtection.remove:result-differs-from-reference",
                                 "HeaderProtection.remove(packet %d, offset %d) differs from the independent implementation" % (pl, off), case)
                 ctx.update(_suite_objs(suite))
@@ -1364,6 +1367,10 @@ def _w3_datagrams(batch, pair, victim, genuine):
     return out
 
 
+def _mag(n):
+    return "0" if n == 0 else "<20" if n < 20 else "<29" if n < 29 else "<1490" if n < 1490 else "<=1500" if n <= 1500 else ">1500"
+
+
 def _w3_auth_payloads(rng, many):
     """frame payloads for authentic packets: truncated / oversized / lying fields"""
     pl = []
@@ -1409,9 +1416,18 @@ def gen_w3(batch, res, sb, watch, use_fork):
     def setup():
         return {"now": pair.now + 1.0}
 
+    import re as _re
+
     def group_of(item):
+        # same kind + same description with every number reduced to its magnitude class: reports
+        # of one group repeat one mechanism, a different layout gets its own quota
         kind, i = item[1]
-        return "w3:" + (dgrams[i][0] if kind == "dgram" else "auth")
+        if kind != "dgram":
+            return "w3:auth"
+        k, desc, _d = dgrams[i]
+        if k in ("random", "truncated-genuine"):
+            return "w3:" + k
+        return "w3:" + k + ":" + _re.sub(r"\d+", lambda m: _mag(int(m.group(0))), desc)
 
     def fn(ctx, item, local):
         idx, (kind, i) = item
